@@ -32,6 +32,7 @@ def gen_sample_case(r, emax=6, Ds=(1, 2, 3, 4, 5, 6), massless_share=0.3, stabil
         sh = [0.0] * D if zero_shifts else [round((r.unit() - 0.5) * 4, 3) for _ in range(D)]
         ed.append(dict(mass=(f2b(mass) if mass is not None else None), shift=[f2b(x) for x in sh]))
     c = G.to_case(g)
+    c["oriented_pairs"] = [[b, a] if fl else [a, b] for (a, b), fl in zip(pairs, flips)]
     c.update(signature=sig, point=[f2b(x) for x in point], edge_data=ed, stability=(f2b(stability) if stability is not None else None),
              debug=True, metadata=True, family=g.get("family"), L=L)
     return c
@@ -181,3 +182,60 @@ def cmp_field(name, a, b, rel):
     if a is None:
         return ["%s: not reported by the implementation" % name]
     return [] if rel_close(b2f(a), b2f(b), rel) else ["%s: impl %r model %r" % (name, b2f(a), b2f(b))]
+
+
+def standard_run(rep, rng, tier, tag, fields, rel, n_quick=60, n_thorough=600, nontrivial=None, extra_cases=None, **gen_kw):
+    """generate cases, run implementation and model, compare `fields` under relative tolerance `rel`.
+    yields (case, impl_f64_fields, model, raw_impl) for cases where both succeeded."""
+    n = n_quick if tier == "quick" else n_thorough
+    cases = list(extra_cases or [])
+    cases += [gen_sample_case(rng.fork(), **gen_kw) for _ in range(n)]
+    res = run_samples(tag, cases)
+    out = []
+    eq = tot = 0
+    hist = {}
+    for c, x in zip(cases, res):
+        o, m = x["impl"], x["model"]
+        if "f64" not in o:
+            rep.violation("machinery", "sample harness: %s" % str(o)[:300], case=c)
+            continue
+        fi = impl_fields(o["f64"])
+        ii = impl_fields(o["inst"])
+        key = "L=%d,D=%d" % (c["L"], c["D"])
+        hist[key] = hist.get(key, 0) + 1
+        rep.count([c["edges"], c["point"], c["signature"], c["edge_data"]], nontrivial(c) if nontrivial else True)
+        if fi["tag"] != m["tag"] or (fi["tag"] == "err" and fi["err"] != m["err"]):
+            rep.violation("correspondence", "outcome: implementation %s, model %s" % (
+                {k: fi[k] for k in fi if k in ("tag", "err", "why")}, {k: m[k] for k in m if k in ("tag", "err", "why")}), case=c)
+            continue
+        if fi["tag"] != "ok":
+            continue
+        if fi != ii:
+            rep.violation("correspondence", "values at T = Inst differ from T = f64 (instrumentation must not change values)", case=c)
+        for k in fields:
+            if k not in fi or k not in m:
+                rep.violation("correspondence", "field %s not observable" % k, case=c)
+                continue
+            msgs = cmp_field(k, fi[k], m[k], rel)
+            if msgs:
+                rep.violation("correspondence", "; ".join(msgs[:3]), case=c)
+            a, b = (fi[k], m[k]) if isinstance(fi[k], list) else ([fi[k]], [m[k]])
+            tot += len(a)
+            eq += sum(1 for p, q in zip(a, b) if p == q)
+        out.append((c, fi, m, o, x["table"]))
+    rep.cov["loops_dimension_histogram"] = hist
+    rep.cov["bit_exact_rate"] = (eq / tot) if tot else None
+    return out
+
+
+def floats(bits):
+    return [b2f(x) for x in bits]
+
+
+def case_numbers(c):
+    """python floats of a case: weights, point, masses, shifts"""
+    E = len(c["edges"])
+    masses = [b2f(ed["mass"]) if ed["mass"] is not None else 0.0 for ed in c["edge_data"]]
+    shifts = [[b2f(x) for x in ed["shift"]] for ed in c["edge_data"]]
+    return dict(E=E, L=c["L"], D=c["D"], point=floats(c["point"]), masses=masses, shifts=shifts,
+                pairs=[(e[0], e[1]) for e in c["edges"]], sig=c["signature"])
